@@ -593,6 +593,7 @@ func runC11(c *core.Ctx) {
 		k := NewWalker(w, gen.NameOpts{Space: w.Hist%2 == 0, MaxDepth: 2, N: 4}, wts)
 		k.Hostile = 4
 		k.MsgClass = true
+		k.BranchNames = append(k.BranchNames, "HEAD", "HEAD", "refs", "logs", "heads")
 		w.TZ = tzs[offs[w.Rng.IntN(len(offs))]]
 		w.Goit("init")
 		name, email, icl := gen.Identity(w.Rng)
